@@ -30,6 +30,8 @@ func checkC12(c *Ctx) {
 	c.Rule("C12.R1", "below NearestNeighbors(k, p), a comparison that excludes an entry from the descent and depends on a point-to-box bound other than MINDIST (which only promises one object within that distance) must also depend on k")
 	c.Rule("C12.R2", "at a leaf every entry's MINDIST from the query point is offered to the result accumulator (full range, no early exit); the 1-NN variant keeps the strict minimum")
 	c.Rule("C12.R3", "where the single-neighbour search excludes entries by the MINMAXDIST bound, an entry is excluded only if its MINDIST is strictly greater than the bound")
+	c.Rule("C12.R4", "distances are compared like with like: the point-to-box bounds return squared distances, math.Sqrt makes them linear, and no ordering comparison (pruning test, accumulator insertion, minimum update) has a squared value on one side and a linear one on the other")
+	c.Rule("C12.R5", "premise of the MINMAXDIST bound and of every prune: each entry's box is the exact envelope of its subtree — the envelope-maintenance obligations of C11.R3 (every mutation followed by an upward pass that reaches the root) hold")
 	p := c.P.Pkg("index/rtree")
 	if p == nil {
 		c.Unk("C12.R1", "index/rtree", token.NoPos, "package not loaded")
@@ -67,6 +69,13 @@ func checkC12(c *Ctx) {
 	}
 	a.r1(knn)
 	a.r3(nn)
+	a.r4()
+	// R5: exact envelopes (shared with C11)
+	if t := (&c11{c: c, info: p.TypesInfo, pure: map[*types.Func]int{}, r3name: "C12.R5"}); t.discover() {
+		t.r3()
+	}
+	c.Floor("C12.R4", 3)
+	c.Floor("C12.R5", 5)
 	c.Floor("C12.R1", 1)
 	c.Floor("C12.R2", 2)
 	c.Floor("C12.R3", 1)
@@ -348,10 +357,16 @@ func (a *c12) exprClass(e ast.Expr) int {
 	case *ast.CallExpr:
 		if f := callee(a.info, x); f != nil {
 			if f == a.mindist {
-				return 1
+				return 1 | unitSq
 			}
 			if a.isBound(f) {
-				return 2
+				return 2 | unitSq
+			}
+			if isFuncIn(f, "math", "Sqrt") && len(x.Args) == 1 {
+				if cl := a.exprClass(x.Args[0]); cl != 0 {
+					return cl&3 | unitLin
+				}
+				return 0
 			}
 			if a.c.P.Decl(f) != nil {
 				if r := a.ret[f]; len(r) == 1 {
@@ -368,6 +383,59 @@ func (a *c12) exprClass(e ast.Expr) int {
 		return cl
 	}
 	return 0
+}
+
+// unit bits carried next to the derivation class: the bounds return squared
+// distances; math.Sqrt turns a squared value into a linear one.
+const (
+	unitSq  = 4
+	unitLin = 8
+)
+
+// r4: no ordering comparison between a squared and a linear distance.
+func (a *c12) r4() {
+	c := a.c
+	unitName := func(cl int) string {
+		switch cl & (unitSq | unitLin) {
+		case unitSq:
+			return "squared"
+		case unitLin:
+			return "linear"
+		case unitSq | unitLin:
+			return "squared on some paths and linear on others"
+		}
+		return "-"
+	}
+	for _, fn := range a.funcs {
+		if a.isBound(fn) {
+			continue
+		}
+		fd := c.P.Decl(fn)
+		n := 0
+		ast.Inspect(fd.Body, func(nd ast.Node) bool {
+			b, ok := nd.(*ast.BinaryExpr)
+			if !ok {
+				return true
+			}
+			switch b.Op {
+			case token.LSS, token.LEQ, token.GTR, token.GEQ, token.EQL, token.NEQ:
+			default:
+				return true
+			}
+			lc, rc := a.exprClass(b.X)&(unitSq|unitLin), a.exprClass(b.Y)&(unitSq|unitLin)
+			if lc == 0 || rc == 0 {
+				return true
+			}
+			n++
+			cons := fmt.Sprintf("%s#cmp:%s", c.P.FuncName(fn), src(b))
+			if lc == rc && (lc == unitSq || lc == unitLin) {
+				c.OK("C12.R4", cons, b.Pos(), "both sides %s", unitName(lc))
+			} else {
+				c.Bad("C12.R4", cons, b.Pos(), "`%s` compares a %s distance (%s) with a %s one (%s): for values below 1 the order of d and d² is reversed, so an entry is pruned or ranked against the wrong threshold", src(b), unitName(lc), src(b.X), unitName(rc), src(b.Y))
+			}
+			return true
+		})
+	}
 }
 
 // comparisons in if-conditions involving an other-bound-derived operand
